@@ -54,7 +54,7 @@ def _mec(D):
 def check(case):
     import sempler.utils as utils
     sub = case["sub"]
-    if sub in ("alldags_exh", "alldags_hyp"):
+    if sub in ("alldags_exh", "alldags_hyp", "alldags_big"):
         P = G.rows_from_lists(case["P"])
         p = len(P)
         A = to_np(P, case.get("dtype", "int"))
@@ -259,10 +259,46 @@ def _alldags_case(draw):
     return {"sub": "alldags_hyp", "P": P, "dtype": draw(st.sampled_from(DTYPE_NAMES)), "ice": draw(st.integers(0, 9)) == 0}
 
 
+def _big_cases(tier, seed):
+    """PDAGs with 13-14 undirected edges (more than 2^12 orientations): trees, K6 minus an edge, a wheel with directed spokes."""
+    out = []
+    # undirected path / star-ish tree on 14 (15) nodes, relabelled by an affine map
+    for p, a in ((14, 5), (15, 4)):
+        lab = [(a * k + seed) % p for k in range(p)]
+        P = [[0] * p for _ in range(p)]
+        for k in range(1, p):
+            i, j = lab[k], lab[(k - 1) // 2] if p == 14 else lab[k - 1 if k % 4 else max(0, k - 3)]     # binary tree / caterpillar
+            P[i][j] = P[j][i] = 1
+        out.append(P)
+    # complete graph on 6 nodes minus one edge, undirected: 14 edges
+    P = [[int(i != j) for j in range(6)] for i in range(6)]
+    P[seed % 6][(seed + 1) % 6] = P[(seed + 1) % 6][seed % 6] = 0
+    out.append(P)
+    # 13 undirected edges plus a directed edge k -> i meeting the first undirected edge i - j (k, j non-adjacent)
+    p = 9
+    P = [[0] * p for _ in range(p)]
+    und = [(0, 1), (1, 2), (2, 3), (3, 4), (4, 5), (5, 6), (6, 7), (0, 2), (1, 3), (2, 4), (3, 5), (4, 6), (5, 7)]
+    for (i, j) in und:
+        P[i][j] = P[j][i] = 1
+    P[8][0] = 1
+    out.append(P)
+    if tier == "thorough":
+        Q = [row[:] for row in P]
+        Q[8][7] = 1
+        out.append(Q)
+        P15 = [[0] * 15 for _ in range(15)]
+        for k in range(14):
+            P15[k][k + 1] = P15[k + 1][k] = 1
+        out.append(P15)
+    return out
+
+
 def plan(tier, seed):
     jobs = [{"sub": "ice_pairs", "seed": seed, "cost": 3},
             ] + [{"sub": "mec_chain", "seed": seed, "ps": ps, "p_nochain": 9 if tier == "quick" else 11, "cost": 20}
                  for ps in ([1, 2, 3, 4, 5, 6, 7], [8], [9], [10], [11], [12])]
+    for k in range(len(_big_cases(tier, seed))):
+        jobs.append({"sub": "alldags_big", "seed": seed, "index": k, "tier": tier, "cost": 100})
     for p in (1, 2, 3):
         jobs.append({"sub": "alldags_exh", "p": p, "shard": 0, "nshards": 1, "ice_every": 1, "seed": seed, "cost": 1})
     ns = 16
@@ -290,7 +326,17 @@ def plan(tier, seed):
 def run(job):
     acc = Acc(job["sub"])
     sub = job["sub"]
-    if sub == "alldags_exh":
+    if sub == "alldags_big":
+        P = _big_cases(job["tier"], job["seed"])[job["index"]]
+        case = {"sub": "alldags_big", "P": P, "dtype": "int", "ice": False}
+        try:
+            lab = check(case)
+            acc.record(case, lab + ["undirected_ge_13"], True, by_construction=True)
+        except Violation as v:
+            acc.record(case, [], False)
+            acc.violation(case, v)
+        acc.exhaustive = False
+    elif sub == "alldags_exh":
         _run_alldags_exh(acc, job)
     elif sub in ("mec_exh", "mec_p5_slice"):
         _run_mec_exh(acc, job)
